@@ -228,6 +228,12 @@ fn opt_lists(tier: Tier) -> Vec<Vec<(String, String)>> {
         l.insert(pos, s("frobnicate", "17"));
         out.push(l);
     }
+    // unknown names that merely RESEMBLE a recognised one (digits or letters appended / prepended, a prefix of it): ignored,
+    // alone (no OACK at all) and next to a recognised option (OACK lists only that one)
+    for near in ["blksize2", "blksize0", "timeout1", "tsize64", "windowsize2", "xblksize", "blksiz", "blk size", "tsize ", "windowsizes", "time-out"] {
+        out.push(vec![s(near, "1024")]);
+        out.push(vec![s(near, "4"), s("blksize", "9")]);
+    }
     out.push(vec![s("frobnicate", "17")]);
     out.push(vec![s("frobnicate", "17"), s("X", "")]);
     out.push(vec![s("blksize", "9"), s("blksize", "9")]);
@@ -373,6 +379,58 @@ fn special_cell(srv: &Srv, cfg: &SrvCfg, spec: &Value) -> Value {
             }
             let _ = std::fs::remove_file(&lp);
         }
+    }
+    // (ii-b) history: the size announced by an earlier WRQ of the same name (here an untruthful one) and the size the file
+    // had at an earlier request are no guide — tsize is the size on disk NOW
+    if srv.send_dir == srv.recv_dir {
+        let name = format!("hist_{}.bin", std::process::id());
+        let p = format!("{}/{}", srv.send_dir, name);
+        let _ = std::fs::remove_file(&p);
+        let up = upload(srv, name.as_bytes(), &tz("5"), &file_content(20));
+        c.executions += 1;
+        c.states += 1;
+        if up.completed {
+            for (rewrite, want) in [(None, 20usize), (Some(77usize), 77), (Some(3usize), 3)] {
+                if let Some(n) = rewrite {
+                    let _ = std::fs::write(&p, file_content(n));
+                }
+                let r = download(srv, name.as_bytes(), &tz("0"));
+                c.executions += 1;
+                c.states += 1;
+                c.transitions += 2;
+                c.nontrivial += 1;
+                let got = r.oack.as_ref().and_then(|o| o.iter().find(|(n, _)| n == "tsize").map(|(_, v)| v.clone()));
+                if got.as_deref() != Some(want.to_string().as_str()) || !r.completed || r.data.len() != want {
+                    viol.push(("oack-tsize".into(), format!("RRQ with tsize=0 for a file that was uploaded with an announced tsize of 5 (20 bytes sent){}: OACK tsize = {:?}, completed={} with {} bytes; the file holds {want} bytes", if rewrite.is_some() { " and then rewritten on disk" } else { "" }, got, r.completed, r.data.len())));
+                }
+            }
+        }
+        let _ = std::fs::remove_file(&p);
+    }
+    // (ii-c) a window that is large in BYTES (600 blocks of 65464 bytes = 39 MB in flight) through the real Server: the first
+    // transmission carries exactly the acknowledged 600 blocks (the client's receive buffer is enlarged to hold them)
+    {
+        let blocks = 601usize;
+        let data = file_content(blocks * 65464 + 5);
+        let _ = std::fs::write(format!("{}/wide.bin", srv.send_dir), &data);
+        let mut cl = Client::new(srv.addr);
+        rcvbuf(&cl.sock, 400 * 1024 * 1024);
+        let opts = vec![("blksize".to_string(), "65464".to_string()), ("windowsize".to_string(), "600".to_string())];
+        let r = download_on(&mut cl, srv, b"wide.bin", &opts, None, 0);
+        c.executions += 1;
+        c.states += 1;
+        c.transitions += r.block_lens.len() as u64;
+        c.nontrivial += 1;
+        let acked_ws = r.oack.as_ref().and_then(|o| o.iter().find(|(n, _)| n == "windowsize").and_then(|(_, v)| v.parse::<usize>().ok()));
+        let first = r.bursts.first().map(|b| b.len()).unwrap_or(0);
+        if !r.completed || r.data != data {
+            viol.push(("transfer-content".into(), format!("RRQ with blksize=65464 windowsize=600 of a {}-byte file: completed={} with {} bytes; anomalies {:?}", data.len(), r.completed, r.data.len(), &r.anomalies[..r.anomalies.len().min(3)])));
+        } else if let Some(w) = acked_ws {
+            if first != w.min(blocks + 1) {
+                viol.push(("window-not-filled".into(), format!("RRQ with blksize=65464 windowsize=600: OACK windowsize={w}, but the first transmission carried {first} blocks ({} blocks in the file)", blocks + 1)));
+            }
+        }
+        let _ = std::fs::remove_file(format!("{}/wide.bin", srv.send_dir));
     }
     // (iii) spellings of the transfer mode: the whole judgement of the option grid applies unchanged
     let mut seq = 900_000usize;
@@ -535,10 +593,28 @@ pub fn check(tier: Tier) -> Outcome {
         }
     }
     let n = cells.len();
+    // "precisely the acknowledged blocks per window" for windows that are large in BYTES or in BLOCKS (beyond what a real
+    // socket buffer takes): the real Worker on the simulated socket, conformant peer, every burst / every ACK position judged
+    let mut big = vec![];
+    {
+        use crate::e1_checks::{base_cfg, cell_spec};
+        use crate::modea::Role;
+        for (role, blk, ws, blocks) in [(Role::Receiver, 8usize, 40000u16, 40001usize), (Role::Receiver, 8, 65535, 65536), (Role::Sender, 8, 40000, 40001), (Role::Sender, 65464, 600, 601), (Role::Sender, 8192, 5000, 5001), (Role::Receiver, 1024, 33000, 33001)] {
+            let mut x = base_cfg(role, blocks * blk + 3, blk, ws);
+            x.alpha = 3;
+            x.snapshot_tail = true;
+            big.push(cell_spec(&x, 0, 1_000_000, &["C09"]));
+        }
+    }
+    let nbig = big.len();
+    let hbig = std::thread::spawn(move || run_cells("modea", big, &crate::pool_opts(tier)));
     let res = run_cells("c09", cells, &crate::pool_opts(tier));
     let mut out = Outcome::new("C09", "model_checking");
     out.absorb(res, n);
-    out.rule = format!("{nlists} option lists: every ordered selection of 1..4 distinct options ({}), plus upper/mixed-case names, an unknown option at every position, duplicated options; x {{RRQ, WRQ}} x {{multi-port, single-port}} x file lengths {{0, 511, 512, 1025}} (70000 with large block sizes); every accepted request is carried to its end by a reference client that follows the acknowledged values. Oracle: reference negotiator (OACK iff a recognised honourable option was requested; names subset; blksize/timeout/windowsize <= requested; tsize = true size / echo; never timeout 0, windowsize 0 or > 65535, blksize outside 8..65464) and transfer shape (non-final DATA length = acknowledged blksize, nothing beyond the acknowledged window before its ACK, upload ACKs per window, byte identity). The retransmission interval is the one wall-clock clause: measured with a strict lower and lenient upper bound for timeout {} and 6 s (above the default). PLUS requests whose answer depends on the file rather than on the option list: sparse files of 2^32-1, 2^32, 2^32+5 and 3*2^32+12345 bytes (tsize in the OACK), a symbolic link inside the send directory, and the option grid's judgement under the mode spellings OCTET / Octet / oCtEt (first reply kind also for netascii spellings). non-trivial = requests that completed a transfer. states = requests, transitions = requests.", if tier == Tier::Quick { "nominal values for every order; every boundary value of each option alone and in ordered pairs" } else { "full cross product of boundary values" }, if tier == Tier::Quick { "1 s" } else { "1, 2, 3 s" });
+    if let Ok(r) = hbig.join() {
+        out.absorb(r, nbig);
+    }
+    out.rule = format!("{nlists} option lists: every ordered selection of 1..4 distinct options ({}), plus upper/mixed-case names, an unknown option at every position, unknown names that resemble recognised ones (blksize2, tsize64, xblksize, blksiz ...), duplicated options; x {{RRQ, WRQ}} x {{multi-port, single-port}} x file lengths {{0, 511, 512, 1025}} (70000 with large block sizes); every accepted request is carried to its end by a reference client that follows the acknowledged values. Oracle: reference negotiator (OACK iff a recognised honourable option was requested; names subset; blksize/timeout/windowsize <= requested; tsize = true size / echo; never timeout 0, windowsize 0 or > 65535, blksize outside 8..65464) and transfer shape (non-final DATA length = acknowledged blksize, nothing beyond the acknowledged window before its ACK, upload ACKs per window, byte identity). The retransmission interval is the one wall-clock clause: measured with a strict lower and lenient upper bound for timeout {} and 6 s (above the default). PLUS requests whose answer depends on the file rather than on the option list: sparse files of 2^32-1, 2^32, 2^32+5 and 3*2^32+12345 bytes (tsize in the OACK), a symbolic link inside the send directory, a file uploaded earlier with an untruthful tsize and then rewritten on disk, and the option grid's judgement under the mode spellings OCTET / Octet / oCtEt (first reply kind also for netascii spellings). PLUS (E1, simulated socket) windows that are large in bytes or blocks (40000 and 65535 blocks of 8 bytes, 600 blocks of 65464 bytes, 5000 of 8192, 33000 of 1024): every transmission after a full-window ACK carries exactly the acknowledged number of blocks and the receiver acknowledges exactly at the window's end. non-trivial = requests that completed a transfer. states = requests, transitions = requests.", if tier == Tier::Quick { "nominal values for every order; every boundary value of each option alone and in ordered pairs" } else { "full cross product of boundary values" }, if tier == Tier::Quick { "1 s" } else { "1, 2, 3 s" });
     out.assumptions = vec!["values beyond 2^16 and non-numeric values belong to C05/C10".into(), "the wall-clock clause tolerates +1.5 s of scheduling noise upwards, 20 ms downwards".into()];
     out
 }
